@@ -6,6 +6,7 @@ CONSTANTS
   Bug_NoBlockCrc = FALSE
   Bug_ManifestSkipsDamaged = FALSE
   Bug_SpliceFragments = FALSE
+  Bug_OrphanNotNoticed = FALSE
   ExcludeTailHeader = TRUE
 INVARIANTS NoInvention
 CHECK_DEADLOCK FALSE
